@@ -21,7 +21,7 @@ func init() {
 			"(R27.1) for every type with its own MarshalJSON and DecodeJSON/UnmarshalJSON the flattened JSON keys written by the marshaler are exactly the keys the decoder reads (tabled exemptions per key); " +
 			"(R27.2) every field of such a type that is read while marshalling is assigned while decoding (the hint-only embedded part is restored by the encoder through SetHint); " +
 			"(R27.3) every hint variable of the protocol packages is registered exactly once in launch.Hinters / SupportedProposalOperationFactHinters with an instance whose Hint() can carry it and which has a decoder, and no two registered hints share a type name; " +
-			"(R27.4) jsonenc.Encoder hands out a decoded object only if the hint was found among the registered decoders and the decoder did not fail.",
+			"(R27.4) jsonenc.Encoder hands out a decoded object only if the hint was found among the registered decoders and the decoder did not fail, and the decoder set caches exactly what its uncached lookup answers; (R27.5) the time text layout printed by util.RFC3339 has a fixed-width fraction and is parsed with the layout that accepts it.",
 		NotDecided: "byte-for-byte re-encoding, hash equality and validity after decoding; encoders of third-party types; values whose JSON form is a scalar.",
 		Run:        runC27,
 	})
@@ -384,6 +384,113 @@ func runC27(c *Ctx) {
 	c.fieldFlowRules(jt, debug)
 	c.pairingRules(jt, debug)
 	c.registryRules(debug)
+	// derived fields: the voteproof's majority is not marshaled as an object but as its hash; the
+	// decoder restores it as the decoded sign fact's fact whose hash equals the marshaled hash
+	c.Rule("R27.2", "FieldFlow")
+	if fn := c.Need("isaac.(*baseVoteproof).decodeJSON"); fn != nil {
+		st := c.StoresD(fn, "&vp.majority")
+		c.StoredIs(fn, "voteproof majority is restored from a decoded sign fact", st, 1, "vp.sfs[ι].Fact()")
+		c.MP(fn, "voteproof majority is the sign fact's fact whose hash equals the marshaled majority hash", st, 1,
+			GTrue("vp.sfs[ι].Fact().Hash().Equal(var:u.Majority.Hash())"))
+		// every sign fact is compared while a majority hash is given: the comparison sits on every
+		// path through an iteration that decoded its sign fact
+		var cmp []ssa.Instruction
+		cmp = append(cmp, c.CallsD(fn, "vp.sfs[ι].Fact().Hash().Equal(var:u.Majority.Hash())")...)
+		c.Exists(fn, "each decoded sign fact is compared with the marshaled majority hash", cmp, 1)
+		c.ForEach(fn, "no sign fact is skipped in the search for the majority", "(ι < len(var:u.SignFacts))", 1,
+			GCalled("vp.sfs[ι].Fact().Hash().Equal(var:u.Majority.Hash())"), GNil("var:u.Majority.Hash()"))
+	}
+	hintSetCacheRules(c, "R27.4")
+	// time text: what util.RFC3339 prints must be parseable by util.ParseRFC3339 for every time
+	c.Rule("R27.5", "TextLayout")
+	if fn := c.Need("util.RFC3339"); fn != nil {
+		fm := c.CallsTo(fn, "(time.Time).Format")
+		if c.Exists(fn, "time text is produced by time.Format", fm, 1) {
+			layout := ""
+			for _, in := range fm {
+				if k, ok := CallArg(in, 0).(*ssa.Const); ok && k.Value != nil {
+					layout += constant.StringVal(k.Value)
+				} else {
+					layout += "?"
+				}
+			}
+			// an optional-fraction verb (.999…) drops the dot for whole seconds; padding digits after it
+			// cannot bring it back
+			c.Report(fn, "time text layout has a fixed-width fraction (parses back for whole seconds too)", c.InstrPos(fm[0]),
+				!strings.Contains(layout, ".9") && !strings.Contains(layout, ",9") && !strings.Contains(layout, "?") && strings.Contains(layout, "Z07:00"), "layout "+layout)
+		}
+	}
+	if fn := c.Need("util.ParseRFC3339"); fn != nil {
+		c.ArgIs(fn, "time text is parsed with the RFC3339 layout that accepts any fraction width", c.CallsTo(fn, "time.Parse"), 1, 0, "\"2006-01-02T15:04:05.999999999Z07:00\"")
+	}
+	for _, t := range [][2]string{{"util/localtime.(Time).MarshalText", "*.RFC3339()"}, {"util/localtime.(*Time).UnmarshalText", "util.ParseRFC3339(*)"}} {
+		if fn := c.Need(t[0]); fn != nil {
+			c.Exists(fn, "localtime text goes through the util layout pair", c.CallsD(fn, t[1]), 1)
+		}
+	}
+}
+
+// hintSetCacheRules (shared by C27 and C31): what the compatible set caches under a key is exactly what
+// the uncached lookup answers for that key — the requested hint, the found value.
+func hintSetCacheRules(c *Ctx, rule string) {
+	c.Rule(rule, "CacheCoherence")
+	const S = "util/hint.(*CompatibleSet[T])."
+	if fn := c.Need(S + "find"); fn != nil {
+		var sets []ssa.Instruction
+		for _, in := range c.CallsD(fn, "st.cacheSet(*)") {
+			sets = append(sets, in)
+		}
+		c.Exists(fn, "find caches its answers", sets, 2)
+		for _, in := range sets {
+			c.ArgIs(fn, "find caches under the requested hint", []ssa.Instruction{in}, 1, 0, "ht.String()")
+		}
+		// the positive entry is (requested hint, found value)
+		pos := 0
+		for _, in := range sets {
+			v := CallArg(in, 1)
+			if mi, ok := v.(*ssa.MakeInterface); ok {
+				v = mi.X
+			}
+			trip, ok := pairOf(c, fn, v)
+			if !ok {
+				continue
+			}
+			pos++
+			c.Report(fn, "cached hint is the requested hint (what the uncached lookup hands back)", c.InstrPos(in), trip[0] == "ht", "cached "+trip[0])
+			c.Report(fn, "cached value is the found value", c.InstrPos(in), strings.HasPrefix(trip[1], "st.set["), "cached "+trip[1])
+			c.MP(fn, "a positive entry is cached only if the value was found", []ssa.Instruction{in}, 1, GTrue("st.set[ht.Type()][ht.Version().Major()]#1"), GTrue("*#1"))
+		}
+		c.Report(fn, "find caches one positive entry", fn.Pos(), pos == 1, fmt.Sprintf("%d", pos))
+	}
+}
+
+// pairOf: v is (a load of) a local [2]interface{}; the descriptors stored into its two slots.
+func pairOf(c *Ctx, fn *ssa.Function, v ssa.Value) (out [2]string, ok bool) {
+	if u, isU := v.(*ssa.UnOp); isU {
+		v = u.X
+	}
+	al, isAl := v.(*ssa.Alloc)
+	if !isAl {
+		return out, false
+	}
+	n := 0
+	for _, in := range allInstrs(fn) {
+		st, isSt := in.(*ssa.Store)
+		if !isSt {
+			continue
+		}
+		ia, isIA := st.Addr.(*ssa.IndexAddr)
+		if !isIA || ia.X != ssa.Value(al) {
+			continue
+		}
+		k, isK := constInt(ia.Index)
+		if !isK || k < 0 || k > 1 {
+			return out, false
+		}
+		out[k] = c.D(st.Val)
+		n++
+	}
+	return out, n == 2
 }
 
 // ---- field flow ------------------------------------------------------------------------------------
